@@ -5,6 +5,7 @@ From Coq Require Import Ascii String.
 Import ListNotations.
 
 Arguments catches : simpl never.
+Local Opaque auto_none_continues.
 
 Section Loop.
   Variable S : Type.
